@@ -146,7 +146,7 @@ CLAIMED = {
              "(0 or >max) yields EPROTO which is sticky for every later call (C07_illegal_length_eproto, "
              "C07_eproto_sticky). Tie: real xcm_tp_tcp.c/xcm_tp_tls.c under ASan+UBSan vs the model on hostile streams "
              "(len 0/65536/2^31/2^32-1, truncated, random, plain text) in four segmentations, plus a reference-decoder "
-             "monitor on the implementation's output.",
+             "monitor on the implementation's output. Translator tie (T1b): mbuf_is_hdr_valid of mbuf.h is regenerated from clang AST of the working tree on every run and proved equal to Wire.hdrValid for every length field (mbuf_is_hdr_valid_tie).",
         note="TLS: garbage during the handshake or inside the record stream makes the meeting call report EPROTO, moves no application "
              "data and fires no assertion of xcm_tp_btls.c whatever OpenSSL answers (C07_btls_handshake_garbage, C07_btls_record_garbage, "
              "C07_btls_no_abort; tie unit_btls), and sys_tls sends real garbage to live TLS sockets next to a bystander connection "
@@ -240,7 +240,7 @@ CLAIMED = {
              "can overrun the path parser (C10_names_total, from C19). Tie: sys_attr on live sockets of all seven transports "
              "in five socket states: every attribute x every access function x capacities 0..size+2 into canary-framed "
              "buffers (bytes written and bytes beyond capacity measured), every name x type x length for set with a state "
-             "snapshot before/after, malformed and over-long names; rc/errno/written compared with the model.",
+             "snapshot before/after, malformed and over-long names; rc/errno/written compared with the model. Translator tie (T1b): valid_set_attr_len of attr_tree.c is regenerated from clang AST on every run and proved equal to AttrAccess.validSetLen for every type code (valid or not) and every length (valid_set_attr_len_tie).",
         note="Found and fixed here: F-10a (fixed-size getters ignored capacity), F-10c (out-of-bounds read of the caller's "
              "buffer when a string getter returns 0 bytes). Attribute values are abstracted to their size. The getter "
              "classification is a translator over preprocessed C (extract/ext_attrs.py) and is trusted together with the "
@@ -260,7 +260,7 @@ CLAIMED = {
              "compares them with xcm_attr_get and the model. Observed on live sockets (monitors, no theorem): xcm.local_addr is "
              "the source address seen by the peer, xcm.service admits exactly the transports of that service, xcm.blocking and "
              "xcm_set_blocking are one switch, TLS policy booleans are inherited by accepted connections unless overridden, "
-             "creation-only attributes are refused with EACCES on established connections without changing anything.",
+             "creation-only attributes are refused with EACCES on established connections without changing anything. Translator tie (T1b): tcp_opts_equal of tcp_attr.c is regenerated from clang AST on every run and proved equal to TcpOpts.optsEqual, hence to equality of the option sets (tcp_opts_equal_tie, optsEqual_iff).",
         note="Found and fixed here: F-11a (tcp_opts_equal '&&'). The theorem covers the TCP options; the remaining clauses of the "
              "property are checked as runtime monitors on the real library (sampled), not proved; the generic set path "
              "(ENOENT/EACCES/EINVAL before the setter) is C10's treeSet theorem. Kernel honouring setsockopt is assumed.",
@@ -338,7 +338,7 @@ CLAIMED = {
              "what the transports request: btcp/ux/server update tables (condition 0 -> nothing, RECEIVABLE -> EPOLLIN only, "
              "terminal states ring the bell). Tie: unit_xpoll runs the real xpoll.c/active_fd.c on the real kernel (epoll, "
              "eventfd, pipes) against the model incl. measured readability; exhaustive update tables on the real transports; "
-             "sys_quiet measures the property itself on live connections of all seven transports. Timers: the timerfd is readable only while a live timer is due and disarmed when none is live, for every history (C16_timer_quiet, C16_no_timers_quiet, C16_wakeup_confirmed on the TimerMgr model; C16_dns_quiet on DnsQuery); tie: unit_timer, unit_dnsq.",
+             "sys_quiet measures the property itself on live connections of all seven transports. Timers: the timerfd is readable only while a live timer is due and disarmed when none is live, for every history (C16_timer_quiet, C16_no_timers_quiet, C16_wakeup_confirmed on the TimerMgr model; C16_dns_quiet on DnsQuery); tie: unit_timer, unit_dnsq. Translator tie (T1b): conn_event / server_event of xcm_tp_ux.c regenerated from clang AST on every run and proved equal to the model functions (conn_event_tie, server_event_tie).",
         note="'one stable descriptor' has no theorem (the model has no field that could change); it is sampled on the "
              "implementation after every operation. The composition 'idle framing/TLS connection => the lower transport's "
              "condition is 0' is proved for tcp/tls framing by tcp_update (C04 file) and for btls by the C16_btls_* theorems on the "
@@ -359,7 +359,7 @@ CLAIMED = {
              "return at the first success after any number of refusals each followed by a wake-up (msgBsend_returns, "
              "socketFinish_returns, C04_blocking_send_returns). Tie: the unit correspondences of these models, plus sys_loop: "
              "two applications following the documented protocol to the letter on all seven transports while send()/recv() "
-             "below XCM and OpenSSL return EAGAIN/short counts at random, with a stall watchdog; the blocking forms in threads. Deadlines: an expired live timer makes the timerfd readable for every history of the timer manager (C04_expired_timer_wakes on the TimerMgr model of timer_mgr.c), the overall DNS deadline is a live timer while a query is in progress and a completed query rings (C04_dns_deadline_wakes, C04_dns_completion_rings on the DnsQuery model of xcm_dns_cares.c); tie: unit_timer, unit_dnsq.",
+             "below XCM and OpenSSL return EAGAIN/short counts at random, with a stall watchdog; the blocking forms in threads. Deadlines: an expired live timer makes the timerfd readable for every history of the timer manager (C04_expired_timer_wakes on the TimerMgr model of timer_mgr.c), the overall DNS deadline is a live timer while a query is in progress and a completed query rings (C04_dns_deadline_wakes, C04_dns_completion_rings on the DnsQuery model of xcm_dns_cares.c); tie: unit_timer, unit_dnsq. Translator tie (T1b): conn_event and server_event of xcm_tp_ux.c are translated on every run from clang AST of the working tree into Generated/Funcs.lean and proved equal to Ux.connEvent / Ux.serverEvent for every condition word (conn_event_tie, server_event_tie).",
         note="proof-partial: (1) liveness over real time needs K-epoll and K-progress (assumptions) and is measured by sys_loop "
              "(watchdog 4 s / 40 s), not proved; (2) the per-layer invariants are composed along the tcp stack for the pending-flush wake-up "
              "(C04_tcp_stack_wakeup: framing + btcp + xpoll: buffered message and writable kernel socket => readable descriptor) and along "
